@@ -40,6 +40,12 @@ namespace BitSerializer::Detail
 			return true;
 		}
 
+		if (pos != mStreamPos && mStream.eof() && !mStream.bad())
+		{
+			// The last read has reached the end of stream (which also sets failbit), reset the state to allow seeking
+			mStream.clear();
+		}
+
 		if (pos == mStreamPos || !mStream.seekg(static_cast<std::streamoff>(pos)).fail())
 		{
 			mStreamPos = pos;
